@@ -196,7 +196,12 @@ Definition secret_key : fmt := key_then (fun ver alg => secret_part ver alg).
 (* ---- the remaining packet bodies ---- *)
 Definition literal : fmt := FEnum [98; 116; 117] ;; FLen L8 FRest ;; FU32 ;; FRest.   (* 5.9 *)
 Definition user_id : fmt := FRest.                                                  (* 5.11 *)
-Definition user_attribute : fmt := FMany (FLen LSub (FEnum [1] ;; FRest)).          (* 5.12 *)
+(* 5.12 user attribute subpackets; 5.12.1: the image attribute (type 1) starts with a
+   little-endian header length (16 for the only defined header version 1), the version, the
+   encoding and 12 reserved octets *)
+Definition user_attribute : fmt :=
+  FMany (FLen LSub (FDep (FEnum [1; 100; 101])
+    (fun t => sw [ (1, FConst [x10; x00; x01] ;; FU8 ;; FBytes 12 ;; FRest) ] FRest (val_n t)))).
 Definition marker : fmt := FConst [x50; x47; x50].                                  (* 5.8 *)
 Definition trust : fmt := FRest.                                                    (* 5.10 *)
 Definition padding : fmt := FRest.                                                  (* 5.14 *)
